@@ -97,7 +97,7 @@ LAZY_DOCS = [
 
 
 def doc_items(quick):
-  vlevels = (0, 1, 3) if quick else (0, 1, 2, 3)
+  vlevels = (0, 1) if quick else (0, 1, 2, 3)
   items = []
   nt = len(corpus19.TAGS)
   tagsets = [()] + [(i,) for i in range(nt)] + [tuple(range(nt))]
@@ -105,7 +105,7 @@ def doc_items(quick):
     for ts in tagsets:
       if t[2].startswith("#") and ts:
         continue
-      for vl in vlevels:
+      for vl in (vlevels if len(ts) < nt else (0, 1, 3) if quick else vlevels):
         lines = list(t[3]) + [corpus19.line_text(t[0], ts)]
         items.append({"kind": "doc", "name": t[0], "version": t[1],
                       "vlevel": vl, "lines": lines})
@@ -356,7 +356,8 @@ def make_menu(g, tab, item):
     for j, o in enumerate(tab):
       if j != i and not (observe.rt_of(o) == "H" and o is not hdr):
         ko = rkind(o)
-        add(P + "==" + ko, R, ["eq", ["line", j]])
+        add(P + "==" + ko, R, ["eq", ["line", j]],
+            P + ("==same-rt" if observe.rt_of(o) == rt else "==other-rt"))
         if observe.rt_of(o) == rt:
           add(P + "diff(" + ko + ")", R, ["call", "diff", [["line", j]]])
           add(P + "diffscript(" + ko + ")", R,
@@ -556,6 +557,10 @@ def coarse(kind):
   field_to_s / validate_field and once per record kind otherwise; the alias
   `name` and an undefined tag count once each."""
   if kind.startswith("g."):
+    for m in ("line", "try_get_line", "segment", "try_get_segment"):
+      for n in ("nope", "*"):
+        if kind == "g.{}({})".format(m, n):
+          return "g.lookup({})".format(n)
     return kind
   k, _, rest = kind.partition(".")
   if k.endswith("v") and k not in ("v",):
@@ -745,7 +750,7 @@ def _check_state(item, res):
   def frame_violation(grp, q, oa, ob):
     eff = effect_of(oa, ob, item)
     clause, grp_ = "frame", grp
-    if item.get("lazy") and eff == "text" and classify_lazy(item, ob):
+    if item.get("lazy") and classify_lazy(item, ob):
       clause, grp_, eff = "text-normalised-on-read", item["lazy"], ""
     d = purity.first_diff(oa, ob)
     run.violation(clause, grp_, [q, q], d.split(" -> ")[0], d, eff)
@@ -1040,7 +1045,7 @@ def run(ctx):
               "traces = results compared with the result on a fresh replica; "
               "non-trivial = state with at least one line besides the header")
   if ctx.quick:
-    plan = [("c10.g1", 2), ("c10.g2", 2), ("c10.g1core", 3), ("c10.g2core", 3)]
+    plan = [("c10.g1", 2), ("c10.g2", 2)]
   else:
     plan = [("c10.g1", 3), ("c10.g2", 3)]
   items = []
